@@ -452,9 +452,13 @@ Theorem C05_due_deadline_completes_immediately : forall now s dr, deadline s <= 
 Proof. exact due_deadline_completes_immediately. Qed.
 Print Assumptions C05_due_deadline_completes_immediately.
 
-(* A registered Sleep follows the task that polls it (commit 5af9a5f): after any sequence of
-   polls before the deadline, by whatever tasks, the entry is registered once and the waker
-   stored with it is that of the task that polled last -- the task that is awaiting it. *)
+(* A registered Sleep follows whoever polls it (commit 5af9a5f): after any sequence of polls
+   before the deadline the entry is registered once and the waker stored with it is the one of
+   the LAST poll.  [k] in (t, k) is the identity of the WAKER the poll was made with (what
+   Waker::will_wake compares), not of a task: two wakers of the same task -- the task's own and the
+   one a sub-executor (FuturesUnordered, JoinSet, select_all ...) hands to its children -- are
+   different identities, and the theorem does not care which task they belong to.  (A rule keyed
+   on the task id instead is refuted: coq/Refuted/C05.v C05_reregister_by_task_id_refuted.) *)
 Theorem C05_woken_through_last_poller : forall polls t k s dr tab,
   Forall (fun p => fst p < deadline s) (polls ++ [(t, k)]) ->
   let r := poll_seq true (polls ++ [(t, k)]) s dr tab in
@@ -463,6 +467,20 @@ Theorem C05_woken_through_last_poller : forall polls t k s dr tab,
   handle (fst (fst r)) = Some (match handle s with None => deadline s | Some h => h end).
 Proof. exact woken_through_last_poller. Qed.
 Print Assumptions C05_woken_through_last_poller.
+
+(* ... spelled out for two wakers of ONE task, in either order (script step 14): wakers are
+   numbered so that w / 2 is the task they wake; polled under w0 and then under w1 <> w0 with
+   w0 / 2 = w1 / 2, the stored waker is w1 *)
+Theorem C05_woken_through_last_waker_of_same_task : forall t0 t1 w0 w1 s dr tab,
+  Nat.div2 w0 = Nat.div2 w1 -> w0 <> w1 -> t0 < deadline s -> t1 < deadline s ->
+  waker_of (snd (poll_seq true [(t0, w0); (t1, w1)] s dr tab)) (sid s) = Some w1 /\
+  waker_of (snd (poll_seq true [(t0, w0); (t1, w1)] s dr tab)) (sid s) <> Some w0.
+Proof.
+  intros t0 t1 w0 w1 s dr tab _ Hne H0 H1.
+  destruct (woken_through_last_poller [(t0, w0)] t1 w1 s dr tab) as (E & _); [repeat constructor; assumption|].
+  cbn [app] in E. split; [exact E|]. rewrite E. intros H. injection H as H. exact (Hne (eq_sym H)).
+Qed.
+Print Assumptions C05_woken_through_last_waker_of_same_task.
 
 (* Timeout, for ANY value future that becomes ready at instant r: polled at instants before
    min r D and then at min r D (the wake-up the driver guarantees), it completes at min r D,
